@@ -413,3 +413,232 @@ def overflow_exact_pairs(name, w, rng):
             seen.add(p)
             res.append(p)
     return res
+
+
+# ---------------------------------------------------------------- conversions at their rounding boundaries (round 3)
+# The operands are DERIVED FROM THE FORMATS (significand width, exponent range) instead of being picked from a list of
+# "interesting" constants: a conversion into a format with p significant bits is a rounding at bit position
+# ulp = 2^(e+1-p) of an operand in the binade [2^e, 2^(e+1)); the boundary of its case split is the midpoint
+# k*ulp + ulp/2 (ties to even: both parities of k), its immediate neighbours (midpoint +- the least operand bit: lost by
+# any detour through a format that keeps fewer operand bits, e.g. uint64 -> double -> float), midpoint +- 2^j (bits kept
+# by a wider intermediate format and those that are not), the exactly representable neighbours, the last significand
+# before a carry into the next binade, overflow to infinity, the denormal range where the rounding position moves, and
+# underflow to zero.  float -> integer conversions truncate: integers, integers +- the least operand bit, +-2^63.
+FMT_F = dict(name='f', p=24, emin=-126, emax=127)
+FMT_D = dict(name='d', p=53, emin=-1022, emax=1023)
+FMT_LD = dict(name='l', p=64, emin=-16382, emax=16383)
+FMT = {'f': FMT_F, 'd': FMT_D, 'l': FMT_LD}
+
+
+def fp_encode(fmt, sign, m, e):
+    """bit pattern of (-1)^sign * m * 2^e in the format, None when not exactly representable (m >= 0 integer)"""
+    p, emin, emax = fmt['p'], fmt['emin'], fmt['emax']
+    if m == 0:
+        bits_e, frac, intbit = 0, 0, 0
+    else:
+        while m % 2 == 0:
+            m //= 2
+            e += 1
+        n = m.bit_length()
+        top = e + n - 1                      # exponent of the leading bit
+        if n > p or top > emax:
+            return None
+        if top >= emin:                      # normal
+            frac = (m << (p - n)) & ((1 << (p - 1)) - 1)
+            bits_e, intbit = top - emin + 1, 1
+        else:                                # denormal: multiples of 2^(emin-p+1)
+            sh = e - (emin - p + 1)
+            if sh < 0:
+                return None
+            frac, bits_e, intbit = m << sh, 0, 0
+    if fmt['name'] == 'f':
+        return (sign << 31) | (bits_e << 23) | frac
+    if fmt['name'] == 'd':
+        return (sign << 63) | (bits_e << 52) | frac
+    return (sign << 79) | (bits_e << 64) | (intbit << 63) | frac
+
+
+def fp_specials(fmt):
+    """zeros, infinities, NaNs (quiet, signalling, negative), least / greatest denormal, least / greatest normal"""
+    n = fmt['name']
+    if n == 'f':
+        return [0, 0x80000000, 0x7f800000, 0xff800000, 0x7fc00000, 0xffc00000, 0x7f800001, 0x7fbfffff, 1, 0x80000001, 0x007fffff,
+                0x00800000, 0x80800000, 0x7f7fffff, 0xff7fffff, 0x00400000, 0x00000002, 0x00000003]
+    if n == 'd':
+        return [0, 1 << 63, 0x7ff0000000000000, 0xfff0000000000000, 0x7ff8000000000000, 0xfff8000000000000, 0x7ff0000000000001,
+                0x7ff7ffffffffffff, 1, (1 << 63) | 1, 0x000fffffffffffff, 0x0010000000000000, 0x8010000000000000, 0x7fefffffffffffff,
+                0xffefffffffffffff, 0x0008000000000000, 2, 3]
+    return [0, 1 << 79, 0x7fff8000000000000000, 0xffff8000000000000000, 0x7fffc000000000000000, 0xffffc000000000000000,
+            0x7fffa000000000000000, 0x7fff8000000000000001, 1, (1 << 79) | 1, 0x00007fffffffffffffff, 0x00018000000000000000,
+            0x80018000000000000000, 0x7ffeffffffffffffffff, 0xfffeffffffffffffffff]
+
+
+def _fracs(depth, rng, quick):
+    """offsets (in units of the least operand bit) inside one target ulp of 2^depth operand units, tagged"""
+    if depth <= 0:
+        return [(0, 'exact')]
+    h = 1 << (depth - 1)
+    out = [(0, 'exact'), (h, 'tie')]
+    if depth >= 2:
+        out += [(h - 1, 'tie-1'), (h + 1, 'tie+1'), (1, 'exact+1'), ((1 << depth) - 1, 'next-1')]
+    js = list(range(1, depth - 1))
+    if quick and len(js) > 2:
+        js = sorted(set([rng.choice(js), js[-1]]))
+    for j in js:
+        out += [(h - (1 << j), 'tie-2^j'), (h + (1 << j), 'tie+2^j')]
+    if depth >= 3 and (not quick or rng.random() < 0.3):
+        r = rng.getrandbits(depth - 1) | 1
+        out += [(h - r if r < h else 1, 'tie-rnd'), (h + r if h + r < (1 << depth) else h + 1, 'tie+rnd')]
+    return out
+
+
+def _signif(nbits, rng, which):
+    """a significand of exactly nbits bits: 'lo' = 100..0, 'hi' = 11..1 (rounding up carries into the next binade),
+    'odd' / 'even' = random with that parity (the two directions of ties-to-even)"""
+    if nbits <= 0:
+        return 0
+    if nbits == 1:
+        return 1
+    top = 1 << (nbits - 1)
+    if which == 'lo':
+        return top
+    if which == 'hi':
+        return (1 << nbits) - 1
+    r = top | rng.getrandbits(nbits - 1)
+    return (r | 1) if which == 'odd' else (r & ~1)
+
+
+def int2fp_boundaries(p, signed, rng, quick):
+    """[(64-bit operand pattern, tag)]: integers at the rounding boundaries of a conversion to p significant bits"""
+    out = []
+    width = 63 if signed else 64
+    for e in range(p, width):                      # operands with e+1 significant bits; ulp = 2^(e+1-p)
+        depth = e + 1 - p
+        kinds = ['odd', 'even'] if not quick else [rng.choice(['odd', 'even'])]
+        if not quick or e % 4 == rng.randrange(4) or e == width - 1:
+            kinds += ['hi', 'lo']
+        for kd in kinds:
+            k = _signif(p, rng, kd)
+            for fr, tag in _fracs(depth, rng, quick):
+                x = (k << depth) + fr
+                tg = 'e%d:%s:%s' % (e, kd, tag)
+                if x < (1 << width):
+                    out.append((x, tg))
+                    if signed:
+                        out.append(((-x) & M64, '-' + tg))
+    # exactly representable values of every width up to p bits, the limits of the integer type
+    for n in sorted(set([1, 2, p - 1, p, p + 1] + ([rng.randrange(1, p)] if quick else list(range(1, p + 2))))):
+        if n > width:
+            continue
+        x = _signif(n, rng, 'odd')
+        out.append((x, 'exact%d' % n))
+        if signed:
+            out.append(((-x) & M64, '-exact%d' % n))
+        sh = rng.randrange(0, width - n + 1)
+        out.append(((x << sh) & M64, 'exact%d<<%d' % (n, sh)))
+    out += [(0, 'zero'), (M64, 'allones'), (1 << 63, 'minint'), ((1 << 63) - 1, 'maxint'), ((1 << 63) + 1, 'minint+1'),
+            (M64 - 1, 'allones-1')]
+    return out
+
+
+def fp2fp_boundaries(src, tgt, rng, quick):
+    """[(operand pattern in format src, tag)]: operands at the rounding boundaries of a conversion to format tgt"""
+    out = [(v, 'special') for v in fp_specials(src)]
+    ps, p = src['p'], tgt['p']
+    if p >= ps and tgt['emin'] <= src['emin']:      # widening: exact, every class of operand
+        bins = [src['emin'], src['emin'] + 1, -1, 0, 1, src['emax']] + [rng.randrange(src['emin'], src['emax'] + 1) for _ in range(4 if quick else 40)]
+        for e in bins:
+            for kd in ('lo', 'hi', 'odd', 'even'):
+                v = fp_encode(src, rng.getrandbits(1), _signif(ps, rng, kd), e - ps + 1)
+                if v is not None:
+                    out.append((v, 'normal:' + kd))
+        for n in (range(1, ps) if not quick else rng.sample(range(1, ps), 6)):       # denormals with n significant bits
+            for kd in ('lo', 'hi', 'odd'):
+                sh = rng.randrange(0, ps - n)
+                v = fp_encode(src, rng.getrandbits(1), _signif(n, rng, kd) << sh, src['emin'] - ps + 1)
+                if v is not None:
+                    out.append((v, 'denormal%d' % n))
+        return out
+    emin, emax = tgt['emin'], tgt['emax']
+    lowest = emin - p + 1                            # exponent of the least target denormal
+    normal = [emin, emin + 1, -1, 0, 1, 23, 24, 52, 53, 62, 63, 64, emax - 1, emax]
+    normal += [rng.randrange(emin, emax + 1) for _ in range(3 if quick else 30)]
+    denorm = list(range(lowest - 2, emin))           # the rounding position is fixed at 2^lowest here
+    if quick:
+        denorm = sorted(set([lowest - 2, lowest - 1, lowest, lowest + 1, emin - 1] + rng.sample(denorm, 4)))
+    over = [emax + 1, src['emax']] if src['emax'] > emax else []
+    for e in sorted(set(normal + denorm + over)):
+        if not src['emin'] - ps + 1 <= e <= src['emax']:
+            continue
+        ue = max(e, emin) - p + 1                    # target ulp = 2^ue in this binade
+        se = max(e, src['emin']) - ps + 1            # least operand bit = 2^se
+        depth = ue - se
+        nk = e - ue + 1                              # bits of the target significand k in this binade (<= 0: below the least denormal)
+        kinds = ['odd', 'even', 'hi', 'lo'] if (not quick or e in (emin, emax, lowest, 0)) else [rng.choice(['odd', 'even']), rng.choice(['hi', 'lo'])]
+        for kd in kinds:
+            k = _signif(nk, rng, kd) if nk > 0 else 0
+            frs = _fracs(depth, rng, quick)
+            if nk <= 0:                              # [2^e, 2^(e+1)) lies inside the first target ulp
+                lo = 1 << (e - se)
+                frs = [(lo, 'lo'), (lo + 1, 'lo+1'), (2 * lo - 1, 'hi'), (lo + (rng.getrandbits(e - se) if e > se else 0), 'rnd')]
+            for fr, tag in frs:
+                m = (k << depth) + fr if depth > 0 else k
+                for sg in ((0, 1) if not quick or rng.random() < 0.3 else (rng.getrandbits(1),)):
+                    v = fp_encode(src, sg, m, se)
+                    if v is not None:
+                        out.append((v, 'e%d:%s:%s' % (e, kd, tag)))
+    return out
+
+
+def fp2int_boundaries(src, rng, quick):
+    """[(operand pattern, tag)] for the truncating conversions to int64: integers and their nearest non-integer
+    neighbours in every binade, values below 1, the limits +-2^63 and their neighbours, out-of-range and non-finite"""
+    out = [(v, 'special') for v in fp_specials(src)]
+    ps = src['p']
+    bins = list(range(-3, 66))
+    if quick:
+        bins = sorted(set([-1, 0, 1, ps - 2, ps - 1, ps, 31, 32, 62, 63, 64] + rng.sample(bins, 8)))
+    for e in bins:
+        se = e - ps + 1                              # least operand bit 2^se
+        for kd in ('lo', 'hi', 'odd', 'even'):
+            ms = [_signif(ps, rng, kd)]
+            if se < 0:                               # fraction bits: n, n + least bit, n + 1/2, n + 1 - least bit
+                ip = _signif(max(e + 1, 0), rng, kd) if e >= 0 else 0
+                one = 1 << (-se)
+                ms = [ip * one, ip * one + 1, ip * one + one // 2, ip * one + one - 1]
+                ms = [m for m in ms if m.bit_length() == ps or e < 0]
+            for m in ms:
+                for sg in (0, 1):
+                    v = fp_encode(src, sg, m, se)
+                    if v is not None and m != 0:
+                        out.append((v, 'e%d:%s' % (e, kd)))
+    for sg, m, e in [(0, 1, 63), (1, 1, 63), (0, (1 << ps) - 1, 63 - ps), (1, (1 << ps) - 1, 63 - ps), (1, (1 << (ps - 1)) + 1, 63 - ps + 1),
+                     (0, 1, 64), (1, 1, 64), (0, (1 << ps) - 1, 64 - ps), (0, 1, 62), (1, 1, 62), (0, (1 << ps) - 1, 62 - ps)]:
+        v = fp_encode(src, sg, m, e)
+        if v is not None:
+            out.append((v, 'limit'))
+    return out
+
+
+CONVERSIONS = {   # opcode -> (operand kind, generator)
+    'I2F': ('i', lambda rng, q: int2fp_boundaries(24, True, rng, q)), 'UI2F': ('i', lambda rng, q: int2fp_boundaries(24, False, rng, q)),
+    'I2D': ('i', lambda rng, q: int2fp_boundaries(53, True, rng, q)), 'UI2D': ('i', lambda rng, q: int2fp_boundaries(53, False, rng, q)),
+    'I2LD': ('i', lambda rng, q: int2fp_boundaries(64, True, rng, q)), 'UI2LD': ('i', lambda rng, q: int2fp_boundaries(64, False, rng, q)),
+    'F2I': ('f', lambda rng, q: fp2int_boundaries(FMT_F, rng, q)), 'D2I': ('d', lambda rng, q: fp2int_boundaries(FMT_D, rng, q)),
+    'LD2I': ('l', lambda rng, q: fp2int_boundaries(FMT_LD, rng, q)),
+    'F2D': ('f', lambda rng, q: fp2fp_boundaries(FMT_F, FMT_D, rng, q)), 'F2LD': ('f', lambda rng, q: fp2fp_boundaries(FMT_F, FMT_LD, rng, q)),
+    'D2LD': ('d', lambda rng, q: fp2fp_boundaries(FMT_D, FMT_LD, rng, q)),
+    'D2F': ('d', lambda rng, q: fp2fp_boundaries(FMT_D, FMT_F, rng, q)), 'LD2F': ('l', lambda rng, q: fp2fp_boundaries(FMT_LD, FMT_F, rng, q)),
+    'LD2D': ('l', lambda rng, q: fp2fp_boundaries(FMT_LD, FMT_D, rng, q)),
+}
+
+
+def conversion_values(name, rng, quick):
+    """deduplicated [(operand pattern, tag)] for conversion opcode name"""
+    kind, g = CONVERSIONS[name]
+    seen, out = set(), []
+    for v, tag in g(rng, quick):
+        if v not in seen:
+            seen.add(v)
+            out.append((v, tag))
+    return kind, out
